@@ -4,6 +4,7 @@ import TypstyleModel.Model.Printer.Knot
 import TypstyleModel.Proofs.Tokens
 import TypstyleModel.Proofs.EndToEnd
 import TypstyleModel.Proofs.Prepare
+import TypstyleModel.Proofs.ParenKept
 /-! C01 — formatting preserves the syntax tree (partial: printer side; the re-parse is an assumption). -/
 namespace Typstyle
 open Pretty
@@ -101,5 +102,25 @@ theorem C01_output_text_keeps_tree_text (root : Node) (d : Twin.Doc)
 /-- T1.5: the post-pass keeps every non-blank character of the whole text, in order. -/
 theorem C01_strip_keeps_text (s : List Char) :
     (stripL s).filter (fun c => !isWs c) = s.filter (fun c => !isWs c) := stripL_filter s
+
+/-- T1.4 (list delimiters): a list-like construct prints both of its delimiters in **every** layout —
+every width, both modes, every unit — unless its style permits leaving them out (`omit_delim_flat`,
+`omit_delim_single`, `omit_delim_empty`).  For every list state and style. -/
+theorem C01_delimiters_printed_in_every_layout (e : Env) (s : LS) (sty : ListStyle) (hF : sty.omitDelimFlat = false)
+    (hS : sty.omitDelimSingle = false) (hE : sty.omitDelimEmpty = false) (u : Nat) (m : Mode) (xs : List Atom)
+    (h : Lay m ((s.print e sty).fam u) xs) : Wrapped (sty.d0.fam u) (sty.d1.fam u) xs :=
+  print_wrapped e s sty hF hS hE u m xs h
+
+/-- T1.4 (parentheses are kept): the parentheses of `( expr )` are printed in every layout unless the
+body is a literal, array, dictionary, destructuring or block (`parenOmittable`) *and* no comment sits
+inside them, or the body is itself parenthesised without a comment (then one layer merges and the
+inner one is judged the same way).  In particular never around an identifier, a unary or binary
+expression, a field access or a call: `(-1).abs()` keeps its parentheses at every width. -/
+theorem C01_parentheses_are_kept (e : Env) (r : Rec) (ctx : Ctx) (n : ANode)
+    (hnest : ∀ p, n.children.find? isPattern = some p → (p.kind == .parenthesized && !hasCommentChildren n) = false)
+    (hkeep : (parenOmittable n && !hasCommentChildren n) = false) :
+    Post (convParenthesized e r ctx n) (fun d => ∀ u m xs, Lay m (d.fam u) xs →
+      Wrapped ((e.soft "(").fam u) ((e.soft ")").fam u) xs) :=
+  convParenthesized_keeps_parens e r ctx n hnest hkeep
 
 end Typstyle
